@@ -82,6 +82,22 @@ CLAIMS = {
              'necessary for "violations are rejected with the syntax error and never silently evaluated to something else"; that an accepted string evaluates to its index-notation reading is NOT decided.',
         note='Trusts: CPython ast/symtable; the documented grammar in the module docstrings as the meaning of the tables; name-based call resolution inside expression_v1.',
         design='DESIGN.md section 2, C19'),
+    'C01': dict(
+        technique='static analysis: protocol-conformance lint over the class model (arity of declarations, overrides, dynamic call sites), pass-through rule on swap rules, driver invariants (ast)',
+        text='PARTIAL. Decides protocol conformance of the rewrite system only: every override and every dynamic call site of the swap-rule protocol declared in evaluable.Array (and of _simplified, _derivative, '
+             '_compile_with_out, ...) agrees in arity with the declaration, no _take/_takediag/_inflate rule hands its own axis parameters to the user-facing helper of the same name (different axis convention), and the '
+             'fixed-point driver keeps its shape/dtype assertion, loop detection and memoisation. A mismatch is an exception or a transposed result the moment that pair of node kinds meets at depth >= 3, so the clauses are '
+             'necessary; termination and value preservation of the ~20 rules per class are NOT decided - no static argument in reach bounds the values over the unbounded term algebra.',
+        note='Trusts: CPython ast; name-based MRO of the class model; the table of public-vs-protocol helper pairs confirmed by reading.',
+        design='DESIGN.md section 2, C01'),
+    'C04': dict(
+        technique='static analysis: translation of derivative-table entries to a polynomial normal form compared with a calculus oracle; canonicalised einsum patterns compared with matrix-calculus patterns; symbolic axis arithmetic (ast)',
+        text='PARTIAL. Decides the derivative tables: each Pointwise.deriv entry equals, in polynomial normal form, the textbook partial derivative of the NumPy function the class emits (and the class emits the function its '
+             'name promises); the einsum patterns and signs of Multiply, Power, Inverse, Determinant, Product, Legendre, TransformCoords, Polyval and the chain rule equal the matrix-calculus patterns up to renaming; zero '
+             'rules, memo and shape assertion of the driver; linear structural nodes act on the right axis of the derivative. A wrong table entry is a wrong Jacobian for every input, also where the suite\'s symmetric test '
+             'matrices hide it; chain-rule plumbing through loops/Custom/user operations and numerical accuracy are NOT decided.',
+        note='Trusts: CPython ast; oracles/calculus.json (textbook calculus); the normal-form algebra is one-sided: an unforeseen but correct spelling (a trig identity) would be reported, accepted alternatives are listed in the oracle.',
+        design='DESIGN.md section 2, C04'),
 }
 
 NOT_APPLICABLE = {
